@@ -288,11 +288,14 @@ class Hierarchy:
         self.nbase = nbase
         self.ids = list(range(5, 5 + nbase)) + sorted(variances)
 
-    def build(self):
-        """Instantiate as real transforge operators."""
+    def build(self, skip=()):
+        """Instantiate as real transforge operators (base types in `skip` are declared
+        later, by build_late)."""
         import transforge.type as T
         ops = {0: T.Top, 1: T.Bottom, 2: T.Unit, 3: T.Function, 4: T.Product}
         for i in range(5, 5 + self.nbase):
+            if i in skip:
+                continue
             p = self.parents.get(i)
             ops[i] = T.TypeOperator(f"B{i}", supertype=ops[p] if p is not None else None)
         for i, vs in sorted(self.variances.items()):
@@ -300,6 +303,13 @@ class Hierarchy:
                 params=[T.Variance.CO if v else T.Variance.CONTRA for v in vs])
         self.ops = ops
         return ops
+
+    def build_late(self, i: int):
+        """Declare base type i now (its parent must exist already)."""
+        import transforge.type as T
+        p = self.parents.get(i)
+        self.ops[i] = T.TypeOperator(f"B{i}", supertype=self.ops[p] if p is not None else None)
+        return self.ops[i]
 
     def arity(self, o: int) -> int:
         if o in (3, 4):
